@@ -575,14 +575,22 @@ func (cs *ConsensusState) tryAddVote(vote *types.Vote, peerID p2p.ID) (bool, err
 				return added, err
 			}
 
-			var timestamp time.Time
-			if voteErr.VoteA.Height == cs.state.InitialHeight {
+			var (
+				timestamp time.Time
+				valSet    = cs.Validators
+			)
+			if voteErr.VoteA.Height+1 == cs.Height {
+				// late precommit for the height just committed: evidence carries the time of
+				// that block and the validator set of that height
+				timestamp = cs.state.LastBlockTime
+				valSet = cs.LastValidators
+			} else if voteErr.VoteA.Height == cs.state.InitialHeight {
 				timestamp = cs.state.LastBlockTime // genesis time
 			} else {
 				timestamp = cstate.MedianTime(cs.LastCommit.MakeCommit(), cs.LastValidators)
 			}
 
-			evidence := types.NewDuplicateVoteEvidence(voteErr.VoteA, voteErr.VoteB, timestamp, cs.Validators)
+			evidence := types.NewDuplicateVoteEvidence(voteErr.VoteA, voteErr.VoteB, timestamp, valSet)
 			evidenceErr := cs.evpool.AddEvidenceFromConsensus(evidence)
 			if evidenceErr != nil {
 				cs.Logger.Error("Failed to add evidence to the evidence pool", "err", evidenceErr)
